@@ -67,9 +67,9 @@ IntVec(v) == [j \in 1..Len(v) |-> RInt(v[j])]
 IsZeroVec(v) == \A j \in 1..Len(v) : v[j][1] = 0
 
 Dot(u, v) == RSum([j \in 1..Len(u) |-> RMul(u[j], v[j])])
-VAdd(u, v) == [j \in 1..Len(u) |-> RAdd(u[j], v[j])]
-VSub(u, v) == [j \in 1..Len(u) |-> RSub(u[j], v[j])]
-VScale(c, v) == [j \in 1..Len(v) |-> RMul(c, v[j])]
+VAdd(u, v) == TLCEval([j \in 1..Len(u) |-> RAdd(u[j], v[j])])
+VSub(u, v) == TLCEval([j \in 1..Len(u) |-> RSub(u[j], v[j])])
+VScale(c, v) == LET cc == TLCEval(c) IN TLCEval([j \in 1..Len(v) |-> RMul(cc, v[j])])
 RECURSIVE VSumUpTo(_, _, _)
 VSumUpTo(vs, k, n) == IF k = 0 THEN ZeroVec(n) ELSE VAdd(VSumUpTo(vs, k - 1, n), vs[k])
 VSum(vs, n) == TLCEval(VSumUpTo(vs, Len(vs), n))        \* sum of a sequence of n-vectors
@@ -83,7 +83,7 @@ IsRatMat(M, r, c) == /\ DOMAIN M = 1..r /\ \A i \in 1..r : IsRatVec(M[i], c)
 ZeroMat(r, c) == [i \in 1..r |-> ZeroVec(c)]
 Identity(n) == [i \in 1..n |-> UnitVec(n, i)]
 IntMat(M) == [i \in 1..Len(M) |-> IntVec(M[i])]
-Col(M, j) == [i \in 1..Len(M) |-> M[i][j]]
+Col(M, j) == TLCEval([i \in 1..Len(M) |-> M[i][j]])
 Transpose(M) == TLCEval([j \in 1..Cols(M) |-> Col(M, j)])
 
 MatMul(A, B) ==
